@@ -195,7 +195,7 @@ dwvw_seek	(SF_PRIVATE *psf, int mode, sf_count_t offset)
 static int
 dwvw_byterate	(SF_PRIVATE *psf)
 {
-	if (psf->file.mode == SFM_READ)
+	if (psf->file.mode == SFM_READ && psf->sf.frames > 0)
 		return (psf->datalength * psf->sf.samplerate) / psf->sf.frames ;
 
 	return -1 ;
